@@ -14,7 +14,7 @@ from vf.rigs import UNACK, pdu_kind
 from vf.world import Clock, World
 
 
-def h_dest(ctx, M, NMAX, ck="crc32"):
+def h_dest(ctx, M, NMAX, ck="crc32", hiccup=False):
     cktype = ChecksumType.CRC_32 if ck == "crc32" else ChecksumType.CRC_32C
     w = World(ctx, injective=True, nonzero_source=True)
     x = ctx.int("x", 0, hdst.OMAX)
@@ -28,6 +28,19 @@ def h_dest(ctx, M, NMAX, ck="crc32"):
     S = sc.S
     ctx.assume(S <= M * L, S > (M - 1) * L)  # exactly M segments
     fs = sc.rig.fs
+    hic = {"n": 0, "used": False}
+    if hiccup:
+        # the user's filestore fails once (transient I/O error) while the file is re-verified
+        def rej(kind, p):
+            if kind != "checksum" or hic["used"]:
+                return None
+            hic["n"] += 1
+            if ctx.choice(f"hic{hic['n']}", 2):
+                hic["used"] = True
+                ctx.covered("filestore_hiccup")
+                return OSError
+            return None
+        fs.reject = rej
     o = sc.md()
     hdst.end_if_other_property(ctx, o)
     ctx.prop("metadata_accepted", o.exc is None, lambda: {"sig": rigs.exc_name(o.exc)})
@@ -58,7 +71,8 @@ def h_dest(ctx, M, NMAX, ck="crc32"):
     t_start = Clock.now
     expiries = 0
     for r in range(NMAX + len(late) + 1):
-        opts = ["TICK"] + (["LATE"] if late else [])
+        # (the call after a filestore failure is a packet-less poll: it deals with the pending expiry)
+        opts = ["TICK"] + (["LATE"] if late and not hic.get("pending") else [])
         what = ctx.pick(f"r{r}", opts)
         if what == "LATE":
             k = late.pop(0)
@@ -71,6 +85,14 @@ def h_dest(ctx, M, NMAX, ck="crc32"):
                      lambda: {"sig": "completion or fault outside a check-timer expiry"})
             continue
         o = sc.tick(f"dt{r}")
+        if hiccup and isinstance(o.exc, OSError):
+            # the filestore's error surfaces from this call; the expiry has not been dealt with: it is
+            # neither counted nor lost (the timer is still expired at the next call)
+            ctx.prop("hiccup_call_decides_nothing", not o.faults and not o.ind and not o.pdus,
+                     lambda: {"sig": "fault / completion in the call in which the filestore failed"})
+            hic["pending"] = True
+            continue
+        hic["pending"] = False
         hdst.end_if_other_property(ctx, o)
         fin = [e for e in o.ind if e[0] == "finished"]
         limit_faults = [f for f in o.faults if f[2] == ConditionCode.CHECK_LIMIT_REACHED]
@@ -161,6 +183,9 @@ def plan(tier):
         specs.append(Spec(f"dest/check-limit/M={m}/Nmax={nmax}", "vf.harness.c13:h_dest",
                           {"M": m, "NMAX": nmax}, twin_share=0.1,
                           obligations=["limit_reached", "late_completion", "eof_completes"]))
+    specs.append(Spec("dest/check-limit/filestore-hiccup/M=1/Nmax=3", "vf.harness.c13:h_dest",
+                      {"M": 1, "NMAX": 3, "hiccup": True}, twin_share=0.1,
+                      obligations=["limit_reached", "late_completion", "filestore_hiccup"]))
     if not q:
         specs.append(Spec("dest/check-limit/crc32c/M=2/Nmax=3", "vf.harness.c13:h_dest",
                           {"M": 2, "NMAX": 3, "ck": "crc32c"}, twin_share=0.1))
